@@ -1,31 +1,50 @@
 // C10 — optimisers never end worse than they start, converge when convex, respect bounds.
-// Laws of DESIGN.md section 5/C10 (one law per clause of the statement; every law runs the same kind of case:
-// one optimiser on one convex objective from one start, see genCase/runCase):
-//   La_termination   optimize() returns (CPU watchdog, a hang is a violation); the only exception accepted is a
-//                    ConstraintException under the *keep* policy with constraints present
+// Laws of DESIGN.md section 5/C10, one law per clause of the statement. Every optimiser law runs the same kind of case
+// (genCase/runCase): one optimiser {BFGS, conjugate gradient, Powell, downhill simplex, SimpleMultiDimensions,
+// SimpleNewtonMultiDimensions, Brent (outward / inward bracketing), golden section, Newton 1-D, Newton backtracking
+// through OneDimensionOptimizationTools::lineSearch, MetaOptimizer (2-3 sub-optimisers over a partition of the variables,
+// step / full, n = 1..3)} on one convex objective of dimension 1..6 from one start, with or without interval
+// constraints (containing start and minimiser), one of the three constraint policies, tolerance 1e-4..1e-10,
+// default or small (20..500) evaluation cap, verbose 0, profiler / message handler null.
+//   La_termination   optimize() returns: CPU watchdog 60 s (a hang is a violation) and, deterministic and cheap, a run
+//                    started at the exact minimiser with the default cap uses at most 50000 objective evaluations
+//                    (worst legitimate value seen: 3338); the only exception accepted in any law is a
+//                    ConstraintException under the *keep* policy with constraints present (counted, label)
 //   Lb_descent       f(reported parameters) <= f(start) + 1e-12 (1+|f(start)|)
 //   Lc_consistency   returned value == getFunctionValue() == f(getParameters()) (bitwise, evaluated by the harness) and
 //                    the function object is left at those parameters with that value
-//   Ld_budget        getNumberOfEvaluations() <= cap + (objective evaluations inside the last step, from the record);
-//                    isToleranceReached() is true whenever the run stopped before the cap;
-//                    isMaximumNumberOfEvaluationsReached() == (count >= cap)
+//   Ld_budget        the library's counter is "loop iterations + evaluations counted by the step":
+//                    (i) no iteration is started once the counter reached the cap (counter read after every step),
+//                    (ii) final counter <= cap + objective evaluations of the last iteration (from the record; not for
+//                    the meta-optimiser, which adds up counters that contain its sub-optimisers' iteration counts),
+//                    (iii) isToleranceReached() is true whenever the run stopped before the cap and
+//                    isMaximumNumberOfEvaluationsReached() == (counter >= cap)
 //   Le_convergence   strictly convex quadratic, no constraint (or constraints stripped by the *ignore* policy), default
-//                    cap: |x - c|_inf <= K_opt * sqrt(tau * max(1,|d|) * cond / lambda_min) + 1e-9
+//                    cap: |x - c|_inf <= K_opt * scale + 1e-9, scale = sqrt(tau * max(1,|d|) * cond / lambda_min)
+//                    (BFGS: two documented extra terms, see the law)
 //   Lf_feasible_auto automatic policy: every point at which the objective was evaluated satisfies every constraint
 //                    (reference predicate on the bounds), the reported point is feasible, no exception escapes
-//                    (also with the same constraints on the function's own parameters)
-//   Lg_bracket       bracketMinimum: b strictly between a and c, f(b) <= f(a), f(b) <= f(c), stored f == f(stored x);
-//   Lg_inward        inwardBracketMinimum: a, b are the given ends, c in [a,b], f(c) <= f at every point the routine
-//                    evaluated (the ends and the grid), the grid was visited, stored f == f(stored x)
+//                    (also with the same constraints on the function's own parameters: an infeasible evaluation throws)
+//   Lg_bracket       bracketMinimum: b strictly between a and c, f(b) <= f(a), f(b) <= f(c), stored f == f(stored x)
+//   Lg_inward        inwardBracketMinimum: a, b are the given ends, c in [a,b] (mesh rounding), f(c) <= f at every point
+//                    the routine evaluated (ends and mesh), every mesh point was visited, stored f == f(stored x)
 //
 // The objective (class Obj) is harness code: f(x) = Phi(Q^T (x - c)) + d with Q orthogonal (product of plane rotations),
 // Phi one of  sum 1/2 lam_i y_i^2 | sum lam_i (cosh y_i - 1) | log sum_i 2 cosh(s_i y_i) - log 2n | sum lam_i (y^4/4 + rho y^2/2),
-// exact analytic first and second derivatives, unique minimiser c with value d. It records every call of setParameters
-// (the point the function then sits on). Value and derivatives are a pure function of the point, so "f evaluated by
-// the harness" is bitwise reproducible.
+// exact analytic first and second derivatives, unique minimiser c with value d, cond = max lam / min lam <= 1e3. It
+// records every call of setParameters (the point the function then sits on). Value and derivatives are a pure function
+// of the point, so "f evaluated by the harness" is bitwise reproducible. Its own parameters are unconstrained (an
+// infeasible evaluation is observed, not refused) except in the second configuration of Lf.
 //
-// Convergence constants K_opt (frozen; calibration = quick+thorough tiers on the unchanged tree, seeds 1..10; the worst
-// ratio err / sqrt(tau*max(1,|d|)*cond/lambda_min) seen is in the evidence as "conv_ratio_<optimiser>"): see KOPT below.
+// Generator restrictions (inside the quantifier, reasons next to the code): in Le the simplex method gets >= 2 variables
+// and non-lattice starts, and as a meta sub-optimiser it runs in full mode (Nelder-Mead stops on equal vertex values /
+// a fresh simplex of size 0.2 is built by every init()).
+//
+// Convergence constants K_opt (frozen): calibrated on the unchanged tree (known findings excluded) and on a copy with all
+// proposed fixes (no exclusion), >= 10x above the worst ratio err/scale seen (evidence: "conv_ratio_<optimiser>"):
+//   worst seen   bfgs 0.77  cg 0.32  powell 2.6  simplex 4.3 (fixed copy)  simple 0.38  simple-newton 0.38
+//                brent 0.014 / 0.007  golden 0.027 (fixed copy)  newton-1d 0 (exact)  meta 2.1
+// Debugging: C10_TRACE=1 prints every case before it is run (and its cost), C10_RATIO=x prints Le cases above ratio x.
 #include "common/pbt.hpp"
 #include "common/bppcommon.hpp"
 
@@ -536,7 +555,7 @@ void excludeMetaStale(vf::Ctx& c, const Case& k) {
 }
 }
 // ------------------------------------------------------------------ (a) termination
-LAW(La_termination, RC, 700, 30000, 160, NTR, 60, true) {
+LAW(La_termination, RC, 1200, 40000, 160, NTR, 60, true) {
   Filter f; Case k = genCase(c, f, ALL);
   c.desc << showCase(k);
   Out o = runCase(c, k);
@@ -547,7 +566,7 @@ LAW(La_termination, RC, 700, 30000, 160, NTR, 60, true) {
 }
 
 // ------------------------------------------------------------------ (b) descent
-LAW(Lb_descent, RC, 900, 40000, 160, NTR, 60, false) {
+LAW(Lb_descent, RC, 1500, 50000, 160, NTR, 60, false) {
   Filter f; Case k = genCase(c, f, ALL);
   c.desc << showCase(k);
   Out o = runCase(c, k);
@@ -563,7 +582,7 @@ LAW(Lb_descent, RC, 900, 40000, 160, NTR, 60, false) {
 }
 
 // ------------------------------------------------------------------ (c) consistency
-LAW(Lc_consistency, RC, 900, 40000, 160, NTR, 60, false) {
+LAW(Lc_consistency, RC, 1500, 50000, 160, NTR, 60, false) {
   Filter f; vector<int> opts; for (int o : ALL) if (o != LINESEARCH) opts.push_back(o);
   Case k = genCase(c, f, opts);
   c.desc << showCase(k);
@@ -585,7 +604,7 @@ LAW(Lc_consistency, RC, 900, 40000, 160, NTR, 60, false) {
 //       record). Not applied to the meta-optimiser: it adds up the counters of its sub-optimisers, which contain the
 //       sub-optimisers' own iteration counts (weakest reading: no claim);
 //  (iii) isToleranceReached() / isMaximumNumberOfEvaluationsReached() agree with the counter.
-LAW(Ld_budget, RC, 900, 40000, 160, "a small cap that is hit", 60, false) {
+LAW(Ld_budget, RC, 1500, 50000, 160, "a small cap that is hit", 60, false) {
   Filter f; f.moreSmallCap = true; vector<int> opts; for (int o : ALL) if (o != LINESEARCH) opts.push_back(o);
   Case k = genCase(c, f, opts);
   c.desc << showCase(k);
@@ -612,7 +631,7 @@ namespace {
 //                        bfgs  cg  powell  simplex  simple  s-newton  brent-out  brent-in  golden  newton-1d  (linesearch)  meta
 const double KOPT[NOPT] = {10,   3,  30,     50,      5,      5,        0.2,       0.2,      0.2,    0.01,      0,            30};
 }
-LAW(Le_convergence, RC, 900, 40000, 160, "dim >= 2 or start within 1e-6 of the optimum", 60, false) {
+LAW(Le_convergence, RC, 1500, 50000, 160, "dim >= 2 or start within 1e-6 of the optimum", 60, false) {
   Filter f; f.quadOnly = true; f.allowSmallCap = false; f.needCons = -1; f.convergence = true;
   vector<int> opts; for (int o : ALL) if (o != LINESEARCH) opts.push_back(o);
   Case k = genCase(c, f, opts);
@@ -658,7 +677,7 @@ LAW(Le_convergence, RC, 900, 40000, 160, "dim >= 2 or start within 1e-6 of the o
 }
 
 // ------------------------------------------------------------------ (f) feasibility under the automatic policy
-LAW(Lf_feasible_auto, RC, 900, 40000, 160, "start within 10% of a bound", 60, false) {
+LAW(Lf_feasible_auto, RC, 1500, 50000, 160, "start within 10% of a bound", 60, false) {
   Filter f; f.policy = AUTO; f.needCons = 1; f.allowFunctionCons = true;
   Case k = genCase(c, f, ALL);
   c.desc << showCase(k);
